@@ -86,6 +86,21 @@ def check(run):
             for a, b in (('s.f0', 's.f1'), ('s2.f1', 's2.f0'), ('sa[1].f0', 'sa[1].f1'), ('s.t.g0', 's2.t.g0'), ('s.f0', 's.t.g0'), ('sa[v0].f1', 'sa[v0].f0')):
                 pairs.append((ctx % a, ctx % b, 'dot-field'))
                 pairs.append((ctx % a, ctx % a, 'same'))
+        # trees that differ only in a constant, by as little as the type allows: neighbouring doubles, doubles whose difference is
+        # far below any fixed epsilon, integers one apart
+        import struct
+        def nxt(x):
+            return struct.unpack('<d', struct.pack('<q', struct.unpack('<q', struct.pack('<d', x))[0] + 1))[0]
+        near = [('0.1', repr(nxt(0.1))), ('1.0', repr(nxt(1.0))), ('0.30000000000000004', '0.3'), ('1e-300', '2e-300'), ('5e-324', '1e-323'), ('1e-17', '2e-17'), ('1000.5', repr(nxt(1000.5))),
+                ('2.2250738585072014e-308', '1.1754943508222875e-38'), ('1e+300', repr(nxt(1e300))), ('7', '8'), ('0', '1'), ('2147483646', '2147483647')]
+        for k in range(6):
+            x = rng.random() * 10 ** rng.randrange(-12, 3)
+            near.append((repr(x), repr(nxt(x))))
+        for ctx in ('d0 + %s', 'fabs(%s)', '%s < d0', 'b0 ? %s : d0', '2.0 * %s + d0'):
+            for a, b in near:
+                if ('.' in a or 'e' in a) or ctx in ('d0 + %s', '%s < d0'):
+                    pairs.append((ctx % a, ctx % b, 'near-constant'))
+                    pairs.append((ctx % b, ctx % b, 'same'))
         nsh = 16
         shards = [vlib.Job() for _ in range(nsh)]
         for i, j in enumerate(shards):
@@ -179,7 +194,7 @@ def check(run):
             run.tie_broken('ExprLaws model (extracted) vs implementation', mism[:6])
         run.cov.update(evaluations=nlaws + npairs, distinct_nontrivial=len(set(texts)) + len(set(pairs)), traces_validated_against_impl=len(model_in),
                        rule='LAWS: every third (context x child) triple and seeded random typed trees, plus %d query forms (n-ary LIST / SIMULATE nodes), each through clone_deeper / mutation / subst of every occurring symbol / '
-                            'child walk under ASan+UBSan; PAIR: each tree against a single-node perturbation (operator, atom, operand order), against its fully parenthesised spelling, and pairs that differ only in the field a dot selects, in nine contexts; '
+                            'child walk under ASan+UBSan; PAIR: each tree against a single-node perturbation (operator, atom, operand order), against its fully parenthesised spelling, pairs that differ only in the field a dot selects, in nine contexts, and pairs that differ only in a constant by one unit in the last place (or by less than any fixed epsilon); '
                             'the extracted Coq equal/subst/clone run on the same dumped trees and must give the implementation\'s answers' % len(QUERIES),
                        samples=samples, laws_cases=nlaws, query_trees=nq, equal_pairs=npairs, model_cases=len(model_in))
     run.cov['trusted_base'] += ['hand model ExprLaws.v of clone_deeper/subst/equal (tied by running the extracted functions on the implementation\'s dumped trees)',
